@@ -3,6 +3,7 @@ import Proofs.PrebuildTyping
 import Proofs.PrebuildMech
 import PyxModel.Prebuild.Recipe
 import Proofs.PbShape          -- PBSHAPE: source tie of the flat builder
+import Proofs.PbShapeMore      -- PBSHAPE, continued: relate / unrelate, return with a value, more values, while / if
 import Proofs.PrebuildFlatStmt   -- FLAT: the flat population model
 
 /-!
@@ -361,7 +362,7 @@ example : ∃ b, (buildExpr { ees := [], classes := [] } (.bin (.int "1") "+" (.
 
 /-- BODY level, sub-subset `coreB` (statement lists of assignment to a variable / attribute, return, break, continue,
     control stop, create with / without variable, select from instances (+ where), delete, relate / unrelate (+ using), `while` /
-    `for each` loops and `if` without elif / else over such lists, nested to any depth): in the population of a whole body every key that is
+    `for each` loops and `if` with elif / else clauses over such lists, nested to any depth): in the population of a whole body every key that is
     searched backwards — the supertype an R603 / R801 subtype row names, Block_ID (R602) and Previous_Statement_ID
     (R661) of an ACT_SMT, the `if` of an ACT_EL / ACT_E (R682 / R683) — names a row created EARLIER: it exists (no
     dangling key) and the successor relation has no cycle.
@@ -424,7 +425,8 @@ example : (chainOf (prebuildFlat { ees := [], classes := ["DOG"] }
 /-- EVERY statement of the population — of the outer block and of every nested block (while / for each / if bodies) — has
     EXACTLY ONE R603 subtype row, as a count over the whole population: `(rows.filter (·.smtOf == some i)).length = 1`
     (first conjunct; the second restates it for the members of the outer block's R661 chain).
-    `_partial`: `coreB` bodies (elif / else clauses and `self` are outside the subset). -/
+    `_partial`: `coreB` bodies (elif / else clauses — each with its own ACT_SMT and exactly one ACT_EL / ACT_E row — are
+    covered; `self` is outside the subset). -/
 theorem statement_subtype_unique_partial (fc : FCtx) (a : Block) (hc : coreB a = true) (hok : flatOk fc a = true) :
     (∀ (i b' : Nat) (p : Option Nat), (prebuildFlat fc a)[i]? = some (.smt b' p) → subCount (prebuildFlat fc a) i = 1) ∧
     (∀ i ∈ chainOf (prebuildFlat fc a) 0, subCount (prebuildFlat fc a) i = 1) := by
@@ -734,6 +736,241 @@ theorem delete_as_in_source (fc : FCtx) (nd : Node) (g : G) (n : Nat) (name : St
       = some (.inst (buildStmt fc none (.delete name) g.st).1,
               { g with st := (buildStmt fc none (.delete name) g.st).2 }) :=
   delete_eq fc nd g n name hb hn hvar
+
+/-! round 5 (Proofs/PbShapeMore.lean): relate / unrelate (with and without `using`).  `VarAns r` = what a look-up answers is
+    a V_VAR row of the population it leaves (`∀ v, r.1 = some v → ∃ nm b, r.2.pop[v]? = some (.var nm b)`); the look-ups are
+    chained in source order (from, to, using), each on the state the previous one left. -/
+
+/-- `accept_RelateNode`: act_smt, find_symbol of `node.from_variable_name` then of `node.to_variable_name` (`lookupVar`, twice),
+    r_rel(node.rel_id), ACT_REL with relationship_phrase = node.phrase, R603, R615 := from, R616 := to, R653 := the association
+    — the `.relate a b r ph` clause of `buildStmt`.  A name that is not found fails on both sides (the model at `needVar`, the
+    source at the asserting `relate(act_rel, None, …)`) and leaves 0 in the row on both sides.  Hypotheses: the four node
+    fields are strings; the current block handle is an ACT_BLK row (`BlkOK`); what each find_symbol answers is a V_VAR row. -/
+theorem relate_as_in_source (fc : FCtx) (nd : Node) (g : G) (n : Nat) (a b r ph : String) (hb : BlkOK g.st)
+    (ha : nd.strs.lookup "from_variable_name" = some a) (hbn : nd.strs.lookup "to_variable_name" = some b)
+    (hr : nd.strs.lookup "rel_id" = some r) (hph : nd.strs.lookup "phrase" = some ph)
+    (hva : VarAns (lookupVar fc a (newSmt none g.st).2))
+    (hvb : VarAns (lookupVar fc b (lookupVar fc a (newSmt none g.st).2).2)) :
+    callFn (mkEnv fc nd) (n + 20) accept_RelateNode [.node] [] g
+      = some (.inst (buildStmt fc none (.relate a b r ph) g.st).1,
+              { g with st := (buildStmt fc none (.relate a b r ph) g.st).2 }) :=
+  relate_eq fc nd g n a b r ph hb ha hbn hr hph hva hvb
+
+/-- `accept_UnrelateNode`: as above with ACT_UNR, R620 := from, R621 := to, R655 — the `.unrelate a b r ph` clause -/
+theorem unrelate_as_in_source (fc : FCtx) (nd : Node) (g : G) (n : Nat) (a b r ph : String) (hb : BlkOK g.st)
+    (ha : nd.strs.lookup "from_variable_name" = some a) (hbn : nd.strs.lookup "to_variable_name" = some b)
+    (hr : nd.strs.lookup "rel_id" = some r) (hph : nd.strs.lookup "phrase" = some ph)
+    (hva : VarAns (lookupVar fc a (newSmt none g.st).2))
+    (hvb : VarAns (lookupVar fc b (lookupVar fc a (newSmt none g.st).2).2)) :
+    callFn (mkEnv fc nd) (n + 20) accept_UnrelateNode [.node] [] g
+      = some (.inst (buildStmt fc none (.unrelate a b r ph) g.st).1,
+              { g with st := (buildStmt fc none (.unrelate a b r ph) g.st).2 }) :=
+  unrelate_eq fc nd g n a b r ph hb ha hbn hr hph hva hvb
+
+/-- `accept_RelateUsingNode`: three look-ups (from, to, using — in this order), ACT_RU, R603, R617 := from, R618 := to,
+    R619 := using, R654 — the `.relateU a b r ph u` clause of `buildStmt` -/
+theorem relate_using_as_in_source (fc : FCtx) (nd : Node) (g : G) (n : Nat) (a b r ph u : String) (hb : BlkOK g.st)
+    (ha : nd.strs.lookup "from_variable_name" = some a) (hbn : nd.strs.lookup "to_variable_name" = some b)
+    (hun : nd.strs.lookup "using_variable_name" = some u)
+    (hr : nd.strs.lookup "rel_id" = some r) (hph : nd.strs.lookup "phrase" = some ph)
+    (hva : VarAns (lookupVar fc a (newSmt none g.st).2))
+    (hvb : VarAns (lookupVar fc b (lookupVar fc a (newSmt none g.st).2).2))
+    (hvc : VarAns (lookupVar fc u (lookupVar fc b (lookupVar fc a (newSmt none g.st).2).2).2)) :
+    callFn (mkEnv fc nd) (n + 20) accept_RelateUsingNode [.node] [] g
+      = some (.inst (buildStmt fc none (.relateU a b r ph u) g.st).1,
+              { g with st := (buildStmt fc none (.relateU a b r ph u) g.st).2 }) :=
+  relate_using_eq fc nd g n a b r ph u hb ha hbn hun hr hph hva hvb hvc
+
+/-- `accept_UnrelateUsingNode`: ACT_URU, R622 := from, R623 := to, R624 := using, R656 — the `.unrelateU a b r ph u` clause -/
+theorem unrelate_using_as_in_source (fc : FCtx) (nd : Node) (g : G) (n : Nat) (a b r ph u : String) (hb : BlkOK g.st)
+    (ha : nd.strs.lookup "from_variable_name" = some a) (hbn : nd.strs.lookup "to_variable_name" = some b)
+    (hun : nd.strs.lookup "using_variable_name" = some u)
+    (hr : nd.strs.lookup "rel_id" = some r) (hph : nd.strs.lookup "phrase" = some ph)
+    (hva : VarAns (lookupVar fc a (newSmt none g.st).2))
+    (hvb : VarAns (lookupVar fc b (lookupVar fc a (newSmt none g.st).2).2))
+    (hvc : VarAns (lookupVar fc u (lookupVar fc b (lookupVar fc a (newSmt none g.st).2).2).2)) :
+    callFn (mkEnv fc nd) (n + 20) accept_UnrelateUsingNode [.node] [] g
+      = some (.inst (buildStmt fc none (.unrelateU a b r ph u) g.st).1,
+              { g with st := (buildStmt fc none (.unrelateU a b r ph u) g.st).2 }) :=
+  unrelate_using_eq fc nd g n a b r ph u hb ha hbn hun hr hph hva hvb hvc
+
+/-- a block with two instance handles `a` (row 1) and `b` (row 3) -/
+def relDemoG : G :=
+  { st := { pop := [.blk true, .var "a" 0, .vint 1 "DOG", .var "b" 0, .vint 3 "CAT"], scopes := [⟨.blk 0, [("b", 3), ("a", 1)]⟩] } }
+def relDemoNd : Node :=
+  { strs := [("from_variable_name", "a"), ("to_variable_name", "b"), ("using_variable_name", "a"), ("rel_id", "R7"), ("phrase", "'owns'")] }
+
+/-- applied: the hypotheses are satisfiable (both names found, both V_VAR rows) and the population is the expected one:
+    the from / to variables in the source's order, the association, the phrase -/
+example : (callFn (mkEnv { ees := [], classes := [] } relDemoNd) 20 accept_RelateNode [.node] [] relDemoG).map (·.2.st.pop)
+    = some [.blk true, .var "a" 0, .vint 1 "DOG", .var "b" 0, .vint 3 "CAT", .smt 0 none, .rel 5 1 3 "R7" "'owns'"] :=
+  (congrArg (Option.map (·.2.st.pop)) (relate_as_in_source { ees := [], classes := [] } relDemoNd relDemoG 0 "a" "b" "R7" "'owns'"
+    (by intro b hb; exact ⟨true, by simp [relDemoG, curBlk] at hb; subst hb; rfl⟩) rfl rfl rfl rfl
+    (VarAns.of_eq (v := 1) (nm := "a") (b := 0) (by decide) (by decide))
+    (VarAns.of_eq (v := 3) (nm := "b") (b := 0) (by decide) (by decide)))).trans (by decide)
+
+/-- … and directly, by evaluation of the generated IR: `unrelate b from a … using a` -/
+example : (callFn (mkEnv { ees := [], classes := [] } relDemoNd) 20 accept_UnrelateUsingNode [.node] [] relDemoG).map (·.2.st.pop)
+    = some [.blk true, .var "a" 0, .vint 1 "DOG", .var "b" 0, .vint 3 "CAT", .smt 0 none, .uru 5 1 3 1 "R7" "'owns'"] := by
+  decide
+
+/-- a name that is not found: both sides fail and leave 0 in the row -/
+example : (callFn (mkEnv { ees := [], classes := [] }
+      { strs := [("from_variable_name", "zz"), ("to_variable_name", "b"), ("rel_id", "R7"), ("phrase", "")] }) 20
+      accept_RelateNode [.node] [] relDemoG).map (fun r => (r.2.st.pop.drop 5, r.2.st.ok))
+    = some ([.smt 0 none, .rel 5 0 3 "R7" ""], false) := by decide
+
+/-! round 6: return with a value, `selected`, while / if / elif / else (for any oracles of the children, and with the
+    model's oracles `exprAcc` = `buildExpr`, `blockAcc` = `withBlock … (buildStmts fc none b)`). -/
+
+/-- `accept_ReturnNode` WITH a value, for ANY oracle of `node.expression` that only appends rows (`hext`) and answers a V_VAL
+    row (`hv`): act_smt, then ACT_RET is instantiated BEFORE the value is accepted (the source's order: the ACT_RET row lies at
+    position act_smt + 1, in front of the oracle's rows `d`), R603, R668 := the value.  The row is the row of the
+    `.ret (some e)` clause of `buildStmt` (`.ret s (some v)`); Flat.lean's documented deviation of FORM — the model appends
+    that row AFTER the value's rows — is visible here as the POSITION of the row (`set (s + 1)` instead of an append): the two
+    populations differ by that move and the renaming of the later rows it causes, which is not proved (see the example). -/
+theorem return_value_as_in_source (fc : FCtx) (nd : Node) (g g1 : G) (n v b : Nat) (acc : Acc) (d : List Flat.Row) (hb : BlkOK g.st)
+    (hk : nd.kids.lookup "expression" = some acc)
+    (ha : acc [] { g with st := ((newSmt none g.st).2.new (.ret 0 none)).2 } = (.inst v, g1))
+    (hext : g1.st.pop = ((newSmt none g.st).2.new (.ret 0 none)).2.pop ++ d)
+    (hv : g1.st.pop[v]? = some (.val b)) :
+    callFn (mkEnv fc nd) (n + 20) accept_ReturnNode [.node] [] g
+      = some (.inst (newSmt none g.st).1,
+              { g1 with st := { g1.st with pop := g1.st.pop.set ((newSmt none g.st).1 + 1)
+                                                  (.ret (newSmt none g.st).1 (some v)) } }) :=
+  return_value_eq fc nd g g1 n v b acc d hb hk ha hext hv
+
+/-- applied, `return 7;` with the oracle `exprAcc` (= `buildExpr`): the source's population, and the model's — the same rows,
+    ACT_RET moved behind the value's rows and the value's indices one less -/
+example : (callFn (mkEnv { ees := [], classes := [] } { kids := [("expression", exprAcc { ees := [], classes := [] } (.int "7"))] })
+      20 accept_ReturnNode [.node] [] { st := { pop := [.blk true], scopes := [⟨.blk 0, []⟩] } }).map (·.2.st.pop)
+    = some [.blk true, .smt 0 none, .ret 1 (some 3), .val 0, .lin 3 "7"] := by decide
+example : (buildStmt { ees := [], classes := [] } none (.ret (some (.int "7"))) { pop := [.blk true], scopes := [⟨.blk 0, []⟩] }).2.pop
+    = [.blk true, .smt 0 none, .val 0, .lin 2 "7", .ret 1 (some 2)] := by decide
+
+/-- `accept_SelectedAccessNode`: s_dt('inst_ref<Object>') (R820), v_val, V_SLR, R801 — the `.selected` clause of `buildExpr` -/
+theorem selected_as_in_source (fc : FCtx) (nd : Node) (g : G) (n : Nat) (hb : BlkOK g.st) :
+    callFn (mkEnv fc nd) (n + 20) accept_SelectedAccessNode [.node] [] g
+      = some (.inst (buildExpr fc .selected g.st).1,
+              { g with st := (buildExpr fc .selected g.st).2,
+                       tys := ((buildExpr fc .selected g.st).1, "inst_ref<Object>") :: g.tys }) :=
+  selected_eq fc nd g n hb
+
+/-- `accept_WhileNode`, for ANY oracles of the condition (answers `v`, leaves `g1`) and of the block (answers `k`, leaves `g2`):
+    act_smt, the condition accepted, then the block, ACT_WHL appended, R603, R608 := the block, R626 := the condition — the row
+    `.whl s blk v` of the `.while_` clause of `buildStmt`.  Hypotheses: in the state the block's oracle leaves, the handler's
+    ACT_SMT is still an ACT_SMT row, `v` is a V_VAL row, `k` an ACT_BLK row. -/
+theorem while_as_in_source (fc : FCtx) (nd : Node) (g g1 g2 : G) (n v k b bb : Nat) (pp : Option Nat) (o : Bool) (accE accB : Acc)
+    (hb : BlkOK g.st)
+    (hkE : nd.kids.lookup "expression" = some accE) (hkB : nd.kids.lookup "block" = some accB)
+    (haE : accE [] { g with st := (newSmt none g.st).2 } = (.inst v, g1)) (haB : accB [] g1 = (.inst k, g2))
+    (hs : g2.st.pop[(newSmt none g.st).1]? = some (.smt bb pp))
+    (hv : g2.st.pop[v]? = some (.val b)) (hk : g2.st.pop[k]? = some (.blk o)) :
+    callFn (mkEnv fc nd) (n + 20) accept_WhileNode [.node] [] g
+      = some (.inst (newSmt none g.st).1, { g2 with st := (g2.st.new (.whl (newSmt none g.st).1 k v)).2 }) :=
+  while_eq fc nd g g1 g2 n v k b bb pp o accE accB hb hkE hkB haE haB hs hv hk
+
+/-- … and with the MODEL's oracles (`exprAcc fc e` = `buildExpr fc e`, `blockAcc fc b` = `withBlock … (buildStmts fc none b)`,
+    which is accept_BlockNode by `block_as_in_source`) the handler IS the `.while_ e b` clause of `buildStmt`.
+    `condOf` / `blockOf` name the model's states after the condition / after the block. -/
+theorem while_model_as_in_source (fc : FCtx) (nd : Node) (g : G) (n : Nat) (e : Pyx.Prebuild.Expr) (b : Block) (bb bv : Nat)
+    (pp : Option Nat) (o : Bool) (hb : BlkOK g.st)
+    (hkE : nd.kids.lookup "expression" = some (exprAcc fc e)) (hkB : nd.kids.lookup "block" = some (blockAcc fc b))
+    (hs : (blockOf fc e b g.st).2.pop[(newSmt none g.st).1]? = some (.smt bb pp))
+    (hv : (blockOf fc e b g.st).2.pop[(condOf fc e g.st).1]? = some (.val bv))
+    (hk : (blockOf fc e b g.st).2.pop[(blockOf fc e b g.st).1]? = some (.blk o)) :
+    callFn (mkEnv fc nd) (n + 20) accept_WhileNode [.node] [] g
+      = some (.inst (buildStmt fc none (.while_ e b) g.st).1, { g with st := (buildStmt fc none (.while_ e b) g.st).2 }) :=
+  while_model_eq fc nd g n e b bb bv pp o hb hkE hkB hs hv hk
+
+/-- `accept_IfNode`, for ANY oracles: act_smt, condition, block, ACT_IF appended (R603, R607 := the block, R625 := the
+    condition), then `node.elif_list` and `node.else_clause` accepted IN THIS ORDER with the keyword `act_if` = the new ACT_IF
+    instance (`kid`: an absent child — `accept(None)` — does nothing) -/
+theorem if_as_in_source (fc : FCtx) (nd : Node) (g g1 g2 : G) (n v k b : Nat) (bb : Nat) (pp : Option Nat) (o : Bool)
+    (accE accB : Acc) (hb : BlkOK g.st)
+    (hkE : nd.kids.lookup "expression" = some accE) (hkB : nd.kids.lookup "block" = some accB)
+    (haE : accE [] { g with st := (newSmt none g.st).2 } = (.inst v, g1)) (haB : accB [] g1 = (.inst k, g2))
+    (hs : g2.st.pop[(newSmt none g.st).1]? = some (.smt bb pp))
+    (hv : g2.st.pop[v]? = some (.val b)) (hk : g2.st.pop[k]? = some (.blk o)) :
+    callFn (mkEnv fc nd) (n + 20) accept_IfNode [.node] [] g
+      = some (.inst (newSmt none g.st).1,
+              (kid nd "else_clause" [("act_if", .inst g2.st.pop.length)]
+                (kid nd "elif_list" [("act_if", .inst g2.st.pop.length)]
+                  { g2 with st := (g2.st.new (.if_ (newSmt none g.st).1 k v)).2 }).2).2) :=
+  if_eq fc nd g g1 g2 n v k b bb pp o accE accB hb hkE hkB haE haB hs hv hk
+
+/-- … with the model's oracles for condition and block, and oracles of the elif list / else clause that do what `buildElifs` /
+    `buildElse` do with the if's Statement_ID (`hEl`, `hE`), the handler IS the `.if_ e b elifs els` clause of `buildStmt` -/
+theorem if_model_as_in_source (fc : FCtx) (nd : Node) (g : G) (n : Nat) (e : Pyx.Prebuild.Expr) (b : Block) (elifs : Elifs) (els : Else)
+    (bb bv : Nat) (pp : Option Nat) (o : Bool) (hb : BlkOK g.st)
+    (hkE : nd.kids.lookup "expression" = some (exprAcc fc e)) (hkB : nd.kids.lookup "block" = some (blockAcc fc b))
+    (hs : (blockOf fc e b g.st).2.pop[(newSmt none g.st).1]? = some (.smt bb pp))
+    (hv : (blockOf fc e b g.st).2.pop[(condOf fc e g.st).1]? = some (.val bv))
+    (hk : (blockOf fc e b g.st).2.pop[(blockOf fc e b g.st).1]? = some (.blk o))
+    (hEl : ∀ st, (kid nd "elif_list" [("act_if", .inst (blockOf fc e b g.st).2.pop.length)] { g with st := st }).2
+        = { g with st := buildElifs fc (newSmt none g.st).1 elifs st })
+    (hE : ∀ st, (kid nd "else_clause" [("act_if", .inst (blockOf fc e b g.st).2.pop.length)] { g with st := st }).2
+        = { g with st := buildElse fc (newSmt none g.st).1 els st }) :
+    callFn (mkEnv fc nd) (n + 20) accept_IfNode [.node] [] g
+      = some (.inst (buildStmt fc none (.if_ e b elifs els) g.st).1,
+              { g with st := (buildStmt fc none (.if_ e b elifs els) g.st).2 }) :=
+  if_model_eq fc nd g n e b elifs els bb bv pp o hb hkE hkB hs hv hk hEl hE
+
+/-- `accept_ElIfListNode(node, act_if)`: every child accepted in order with the same `act_if` (fuel: one unit per child) -/
+theorem elif_list_as_in_source (fc : FCtx) (nd : Node) (g : G) (n : Nat) (a : V) :
+    callFn (mkEnv fc nd) (nd.children.length + n + 5) accept_ElIfListNode [.node] [("act_if", a)] g
+      = some (.none, foldAcc [("act_if", a)] nd.children g) :=
+  elif_list_eq fc nd g n a
+
+/-- `accept_ElIfNode(node, act_if)` with the model's oracles: act_smt (in the block HOLDING the if, chained nowhere), condition,
+    block, ACT_EL, R603, R658, R659, R682 := the Statement_ID `si` of the ACT_IF row `i` — one round of `buildElifs` -/
+theorem elif_as_in_source (fc : FCtx) (nd : Node) (g : G) (n i si bi vi : Nat) (e : Pyx.Prebuild.Expr) (b : Block) (bb bv : Nat)
+    (pp : Option Nat) (o : Bool) (hb : BlkOK g.st)
+    (hkE : nd.kids.lookup "expression" = some (exprAcc fc e)) (hkB : nd.kids.lookup "block" = some (blockAcc fc b))
+    (hs : (blockOf fc e b g.st).2.pop[(newSmt none g.st).1]? = some (.smt bb pp))
+    (hv : (blockOf fc e b g.st).2.pop[(condOf fc e g.st).1]? = some (.val bv))
+    (hk : (blockOf fc e b g.st).2.pop[(blockOf fc e b g.st).1]? = some (.blk o))
+    (hi : (blockOf fc e b g.st).2.pop[i]? = some (.if_ si bi vi)) :
+    callFn (mkEnv fc nd) (n + 20) accept_ElIfNode [.node] [("act_if", .inst i)] g
+      = some (.inst (newSmt none g.st).1, { g with st := buildElifs fc si (.cons e b .nil) g.st }) :=
+  elif_model_eq fc nd g n i si bi vi e b bb bv pp o hb hkE hkB hs hv hk hi
+
+/-- `accept_ElseNode(node, act_if)` with the model's block oracle: act_smt, block, ACT_E, R603, R606, R683 := the Statement_ID of
+    the ACT_IF row — the `.some b` clause of `buildElse` -/
+theorem else_as_in_source (fc : FCtx) (nd : Node) (g : G) (n i si bi vi : Nat) (b : Block) (bb : Nat) (pp : Option Nat)
+    (o : Bool) (hb : BlkOK g.st) (hkB : nd.kids.lookup "block" = some (blockAcc fc b))
+    (hs : (withBlock (newSmt none g.st).2 (buildStmts fc none b)).2.pop[(newSmt none g.st).1]? = some (.smt bb pp))
+    (hk : (withBlock (newSmt none g.st).2 (buildStmts fc none b)).2.pop[(withBlock (newSmt none g.st).2 (buildStmts fc none b)).1]?
+      = some (.blk o))
+    (hi : (withBlock (newSmt none g.st).2 (buildStmts fc none b)).2.pop[i]? = some (.if_ si bi vi)) :
+    callFn (mkEnv fc nd) (n + 20) accept_ElseNode [.node] [("act_if", .inst i)] g
+      = some (.inst (newSmt none g.st).1, { g with st := buildElse fc si (.some b) g.st }) :=
+  else_model_eq fc nd g n i si bi vi b bb pp o hb hkB hs hk hi
+
+def cmpDemoFc : FCtx := { ees := [], classes := [] }
+def cmpDemoNd : Node :=
+  { kids := [("expression", exprAcc cmpDemoFc (.bool "true")), ("block", blockAcc cmpDemoFc (.cons .brk .nil))] }
+def cmpDemoG : G := { st := { pop := [.blk true], scopes := [⟨.blk 0, []⟩] } }
+
+/-- applied, `while (true) break; end while;`: the hypotheses of `while_model_as_in_source` hold, the population is the model's -/
+example : (callFn (mkEnv cmpDemoFc cmpDemoNd) 20 accept_WhileNode [.node] [] cmpDemoG).map (·.2.st.pop)
+    = some [.blk true, .smt 0 none, .val 0, .lbo 2 "TRUE", .blk false, .smt 4 none, .brk 5, .whl 1 4 2] :=
+  (congrArg (Option.map (·.2.st.pop)) (while_model_as_in_source cmpDemoFc cmpDemoNd cmpDemoG 0 (.bool "true") (.cons .brk .nil)
+    0 0 none false (by intro b hb; exact ⟨true, by simp [cmpDemoG, curBlk] at hb; subst hb; rfl⟩) rfl rfl
+    (by decide) (by decide) (by decide))).trans (by decide)
+
+/-- applied, an `else` clause of the if whose ACT_IF is row 3 with Statement_ID 1: R683 stores the Statement_ID -/
+example : (callFn (mkEnv cmpDemoFc cmpDemoNd) 20 accept_ElseNode [.node] [("act_if", .inst 3)]
+      { st := { pop := [.blk true, .smt 0 none, .val 0, .if_ 1 0 2], scopes := [⟨.blk 0, []⟩] } }).map (·.2.st.pop)
+    = some [.blk true, .smt 0 none, .val 0, .if_ 1 0 2, .smt 0 none, .blk false, .smt 5 none, .brk 6, .e 4 5 1] := by decide
+
+/-- applied, an if without elif / else: only the ACT_IF row -/
+example : (callFn (mkEnv cmpDemoFc cmpDemoNd) 20 accept_IfNode [.node] [] cmpDemoG).map (·.2.st.pop)
+    = some [.blk true, .smt 0 none, .val 0, .lbo 2 "TRUE", .blk false, .smt 4 none, .brk 5, .if_ 1 4 2] := by decide
+
+/-- applied, `selected` inside a where clause of the outer block -/
+example : (callFn (mkEnv cmpDemoFc {}) 20 accept_SelectedAccessNode [.node] [] cmpDemoG).map (fun r => (r.2.st.pop, r.2.tys))
+    = some ([.blk true, .val 0, .slr 1], [(1, "inst_ref<Object>")]) := by decide
 
 end PbShape
 
